@@ -36,7 +36,7 @@ const dlgTag = "ucan/dlg@1.0.0-rc.1"
 const invTag = "ucan/inv@1.0.0-rc.1"
 
 type tokEnv struct {
-	cls   string // class of the token under construction: "", "-nullval", "-intfloat" (known codec limits)
+	cls   string // class of the token under construction: "", "-nullval", "-intfloat", "-badutf8" (known codec limits)
 	c     *Ctx
 	keys  []principal
 	byDid map[string]*principal
@@ -135,7 +135,11 @@ func (e *tokEnv) randMetaOpts(isDlg bool) ([]delegation.Option, []invocation.Opt
 	n := r.Intn(4)
 	for j := 0; j < n; j++ {
 		k := fmt.Sprintf("m%d%s", j, r.Str("xyz", 2))
-		switch r.Intn(10) {
+		switch r.Intn(11) {
+		case 10:
+			// a Go string need not be UTF-8: DAG-CBOR carries the bytes, DAG-JSON writes U+FFFD for them
+			add(k, "bin"+r.Pick([]string{"\xff", "a\xc3", "\xed\xa0\x80", "\xc0\xaf"})+r.Str("xyz", 2))
+			e.cls = "-badutf8"
 		case 0:
 			add(k, "text "+r.Pick([]string{"abc", "é", "日本", "a b", ""})+r.Str("xyz", 3))
 		case 1:
@@ -168,7 +172,10 @@ func (e *tokEnv) randArgs(r *Rng) *args.Args {
 	n := r.Intn(5)
 	for j := 0; j < n; j++ {
 		k := fmt.Sprintf("k%d%s", j, r.Str("ab", 2))
-		switch r.Intn(9) {
+		switch r.Intn(10) {
+		case 9:
+			a.Add(k, "v"+r.Pick([]string{"\xff", "b\xc3", "\xf8\x88"})+r.Str("abc", 2))
+			e.cls = "-badutf8"
 		case 0:
 			a.Add(k, "v"+r.Str("abc", 4))
 		case 1:
@@ -911,9 +918,10 @@ func genToken(c *Ctx) {
 			nonce            int // -1: none given
 			t1, t2           *int64
 			polmax           int64
+			ns               int64 // nanoseconds added to t1 / t2 when given to the option (the model sees the second the caller's value rounds to)
 		}
 		pt := func(v int64) *int64 { return &v }
-		base := spec{true, true, "/a/b", -1, nil, nil, 1}
+		base := spec{true, true, "/a/b", -1, nil, nil, 1, 0}
 		var specs []spec
 		add := func(f func(s *spec)) { s := base; f(&s); specs = append(specs, s) }
 		add(func(s *spec) {})
@@ -939,10 +947,21 @@ func genToken(c *Ctx) {
 			pm := pm
 			add(func(s *spec) { s.polmax = pm })
 		}
+		// instants between two seconds around the largest representable one: the bound applies to what is stored
+		for _, tv := range []int64{9007199254740991, 9007199254740990, -9007199254740991, -9007199254740992, 4102444800} {
+			for _, ns := range []int64{400_000_000, 500_000_000, 600_000_000, 999_999_999} {
+				tv, ns := tv, ns
+				add(func(s *spec) { s.t2 = pt(tv); s.ns = ns })
+				add(func(s *spec) { s.t1 = pt(tv); s.ns = ns })
+			}
+		}
 		for _, s := range specs {
 			for _, ty := range []string{"dlg", "inv"} {
 				if ty == "inv" && s.polmax != 1 {
 					continue
+				}
+				if ty == "dlg" && ((s.t2 != nil && *s.t2 < 0) || (s.t1 != nil && *s.t1 < 0)) {
+					continue // delegation.WithExpiration / WithNotBefore refuse an instant in the past, whatever its size
 				}
 				s := s
 				obs := safe(func() W {
@@ -963,10 +982,10 @@ func genToken(c *Ctx) {
 							opts = append(opts, delegation.WithNonce(bytes.Repeat([]byte{1}, s.nonce)))
 						}
 						if s.t1 != nil {
-							opts = append(opts, delegation.WithNotBefore(time.Unix(*s.t1, 0)))
+							opts = append(opts, delegation.WithNotBefore(time.Unix(*s.t1, s.ns)))
 						}
 						if s.t2 != nil {
-							opts = append(opts, delegation.WithExpiration(time.Unix(*s.t2, 0)))
+							opts = append(opts, delegation.WithExpiration(time.Unix(*s.t2, s.ns)))
 						}
 						t, err := delegation.New(iss, other, command.Command(s.cmd), pol, opts...)
 						if err != nil {
@@ -979,12 +998,12 @@ func genToken(c *Ctx) {
 						opts = append(opts, invocation.WithNonce(bytes.Repeat([]byte{1}, s.nonce)))
 					}
 					if s.t1 != nil {
-						opts = append(opts, invocation.WithInvokedAt(time.Unix(*s.t1, 0)))
+						opts = append(opts, invocation.WithInvokedAt(time.Unix(*s.t1, s.ns)))
 					} else {
 						opts = append(opts, invocation.WithoutInvokedAt())
 					}
 					if s.t2 != nil {
-						opts = append(opts, invocation.WithExpiration(time.Unix(*s.t2, 0)))
+						opts = append(opts, invocation.WithExpiration(time.Unix(*s.t2, s.ns)))
 					}
 					t, err := invocation.New(iss, other, command.Command(s.cmd), nil, opts...)
 					if err != nil {
@@ -992,11 +1011,16 @@ func genToken(c *Ctx) {
 					}
 					return WOk(WInt(int64(len(t.Nonce()))))
 				})
+				// the second that goes on the wire: invocation.WithExpiration rounds to the nearest second, the
+				// other options keep the instant and the encoder writes its Unix() second
 				tw := func(p *int64) W {
 					if p == nil {
 						return WNull
 					}
-					return WInt(*p)
+					if ty == "inv" && p == s.t2 {
+						return WInt(time.Unix(*p, s.ns).Round(time.Second).Unix())
+					}
+					return WInt(time.Unix(*p, s.ns).Unix())
 				}
 				c.Emit("tok/new-"+ty, WList(WStr("new"), WStr(ty), WMap(KV{"iss", WBool(s.issDef)}, KV{"other", WBool(s.otherDef)},
 					KV{"cmd", WStr(s.cmd)}, KV{"nonce", WInt(int64(s.nonce))}, KV{"t1", tw(s.t1)}, KV{"t2", tw(s.t2)}, KV{"polmax", WInt(s.polmax)})), obs)
